@@ -241,6 +241,16 @@ func (e *c18ex) Exec(op string) string {
 		return "bad-op"
 	}
 	switch w[0] {
+	case "initother":
+		// the same initialisation executed by ANOTHER chaincode process over the same ledger (as on
+		// a peer that did not serve the earlier invocations); the long-lived process answers the next
+		// probe and must follow what is stored
+		old := e.p.CC
+		cc, _ := world.NewInstance()
+		e.p.CC = cc
+		out := e.Exec("init " + strings.Join(w[1:], " "))
+		e.p.CC = old
+		return out
 	case "init":
 		if len(w) < 3 {
 			return "bad-op"
@@ -399,6 +409,7 @@ func genC18(c *Cfg, emit func([]string)) {
 	// (c) callers
 	for _, cr := range creators {
 		emit([]string{"reset vt", "init " + cr + " json " + render(valid()), "probe", "init admin json " + render(valid()), "probe", "init " + cr + " json " + render(valid()), "probe"})
+		emit([]string{"reset vt", "init admin json " + render(valid()), "probe", "initother " + cr + " json " + render(valid()), "probe", "initother admin json " + render(valid()), "probe", "init admin json " + render(valid()), "probe"})
 	}
 	// (d) not JSON at all / JSON of another shape
 	for _, raw := range []string{"", "{", "null", "[]", "5", "\"x\"", "{}", "{\"contract\":[]}", "{\"contract\":{\"symbol\":[\"VT\"]}}"} {
@@ -477,9 +488,9 @@ func genC18(c *Cfg, emit func([]string)) {
 			if rng.Intn(8) == 0 {
 				ex = append(ex, pick("x=c", "x=t", "x=top", "d=cs", "alt=1", "cd=transfer"))
 			}
-			h = append(h, "init "+pick(creators...)+" json "+render(m, ex...), "probe")
+			h = append(h, pick("init ", "init ", "init ", "initother ")+pick(creators...)+" json "+render(m, ex...), "probe")
 		}
 		emit(h)
 	}
-	c.Rule = "JSON configurations built from a field tree: (a) every listed mutation (absent, null, wrong JSON kind, empty object, empty string, ill-formatted variants around each pattern) of every field of a valid configuration, each preceded and followed by valid initialisations and probes; (b) unknown and duplicate members at every level, alternate field spelling, disabled-function lists; (c) 9 caller certificates (admin OU, mixed-case OU, several OUs, other OU, none, garbage); (d) arguments that are not JSON or JSON of another shape; (e) legacy positional arguments for all 20 known channel names and unknown ones with 0..6 arguments, and with exactly one empty argument at every position; (f) random histories of up to 5 initialisations with several simultaneous mutations. Observed: Init reply, ledger key __config before/after (stored exactly as given / kept), and the configuration in force on the next invocation (symbol, robot key, admin, issuer, fee setter, disabled functions). non-trivial = contains an initialisation; distinct = sha256"
+	c.Rule = "JSON configurations built from a field tree: (a) every listed mutation (absent, null, wrong JSON kind, empty object, empty string, ill-formatted variants around each pattern) of every field of a valid configuration, each preceded and followed by valid initialisations and probes; (b) unknown and duplicate members at every level, alternate field spelling, disabled-function lists; (c) 9 caller certificates (admin OU, mixed-case OU, several OUs, other OU, none, garbage); (d) arguments that are not JSON or JSON of another shape; (e) legacy positional arguments for all 20 known channel names and unknown ones with 0..6 arguments, and with exactly one empty argument at every position; (f) random histories of up to 5 initialisations with several simultaneous mutations, a quarter of them executed by another chaincode process over the same ledger while the long-lived one answers the probes. Observed: Init reply, ledger key __config before/after (stored exactly as given / kept), and the configuration in force on the next invocation (symbol, robot key, admin, issuer, fee setter, disabled functions). non-trivial = contains an initialisation; distinct = sha256"
 }
